@@ -48,10 +48,18 @@ def gen_cases(rng, n):
         perm = list(rng.permutation(base))
         nl = int(rng.integers(1, 4))
         nc = int(rng.integers(0, 3))
+        # stratified: every fourth case declares a user range, alternately for a parameter that has a built-in default range
+        # (n, ellip, theta) and for one that has none; the polynomial orders 0..4 are cycled through
+        user_range = (k % 4 == 1)
+        if user_range and (k // 4) % 2 == 0:
+            ranged = [p for p in perm if p.split("_")[0] in ("n", "ellip", "theta")]
+            if ranged:
+                perm.remove(ranged[0])
+                perm.insert(0, ranged[0])
         cases.append(dict(kind="bspline" if k % 3 == 2 else "poly", bands=bands, multi=multi, linked=[str(p) for p in perm[:nl]], const=[str(p) for p in perm[nl:nl + nc]],
-                          order=int(rng.integers(0, 5)), wavelengths=[float(w) for w in np.sort(rng.uniform(0.4, 5.0, nb))],
+                          order=int(k % 5), wavelengths=[float(w) for w in np.sort(rng.uniform(0.4, 5.0, nb))],
                           sky=str(rng.choice(["none", "flat"])), loss=str(rng.choice(["gaussian_loss", "gaussian_loss_w_sys", "student_t_loss"])),
-                          user_range=bool(rng.random() < 0.25), big=float(rng.choice([1.0, 1.0, 50.0])), seed=int(rng.integers(0, 2 ** 31))))
+                          user_range=user_range, big=float(rng.choice([1.0, 1.0, 50.0])), seed=int(rng.integers(0, 2 ** 31))))
     return cases
 
 
@@ -73,6 +81,7 @@ def real_eval(payload):
     out = []
     for c in payload["cases"]:
         try:
+            pre = None
             rng = np.random.default_rng(c["seed"])
             N = 10
             fitters, before = [], []
@@ -89,6 +98,13 @@ def real_eval(payload):
                     f = U.pysersic.FitSingle(data, rms, psf, prior, loss_func=loss, renderer=U.RD.PixelRenderer)
                 fitters.append(f)
                 before.append(dict(f.prior.dist_dict))
+            # direct relabelling of each band's prior (kept even if the multi-band constructor raises)
+            pre = []
+            for b, f in zip(c["bands"], fitters):
+                try:
+                    pre.append(dict(band=b, before=list(f.prior.dist_dict), after=list(U.PR.update_prior_suffix(f.prior, "_" + b).dist_dict)))
+                except Exception as e:
+                    pre.append(dict(band=b, before=list(f.prior.dist_dict), after=None, error=f"{type(e).__name__}: {e}"))
             ur = {}
             if c["user_range"]:
                 ur = {c["linked"][0]: [0.7, 3.3]}
@@ -137,20 +153,32 @@ def real_eval(payload):
             # constant parameters: the object sampled once
             info["const_prior_is_band0"] = all(type(top.const_prior_dict[p]) is type(top.fitter_list[0].prior.dist_dict[p + "_" + c["bands"][0]]) for p in c["const"])
             info["unlinked_prior_own_band"] = True
+            info["relabel_direct"] = pre
             out.append(info)
         except Exception as e:
             import traceback
-            out.append(dict(error=f"{type(e).__name__}: {e}", tb=traceback.format_exc()[-700:]))
+            out.append(dict(error=f"{type(e).__name__}: {e}", tb=traceback.format_exc()[-700:], relabel_direct=pre))
     return out
 
 
 def judge(ctx, c, r, x64):
     diffs, viol = [], []
-    if "error" in r:
-        return [f"real code raised {r['error']}"], [], r.get("tb")
     def v(clause, msg):
         return Violation(f"C15:{clause}:{c['kind']}", f"{c['kind']} link, bands {c['bands']}, linked {c['linked']}, const {c['const']}, multi={c['multi']}: {msg}",
                          dict(kind="oracle", case=c))
+    # relabelling is "append the band to every name": checked on the direct call, also when the constructor fails afterwards
+    for rb in (r.get("relabel_direct") or []):
+        want = [k + "_" + rb["band"] for k in rb["before"]]
+        if rb["after"] is None:
+            viol.append(v("relabel-raises", f"update_prior_suffix(prior, '_{rb['band']}') raised {rb.get('error')}"))
+        elif sorted(rb["after"]) != sorted(want):
+            odd = sorted(set(rb["after"]) ^ set(want))[:6]
+            viol.append(v("relabel-append", f"band {rb['band']}: relabelled names are not <name>_{rb['band']} for every name (differences: {odd}); "
+                                            "names no longer map back to exactly one (parameter, band)"))
+    if "error" in r:
+        if not x64:
+            viol.append(v("raises", f"a valid multi-band configuration raised {r['error'][:160]}"))
+        return [f"real code raised {r['error']}"], viol, r.get("tb")
     sites = r["sites"]
     loss_k = c["loss"]
     lst = lambda xs: f"{len(xs)} " + " ".join(xs) if xs else "0"  # noqa: E731
@@ -162,6 +190,8 @@ def judge(ctx, c, r, x64):
         for i, b in enumerate(c["bands"]):
             if c["kind"] == "poly":
                 co = sites[p + "_poly_coeff"]["value"].ravel()
+                if i == 0 and len(co) != c["order"] + 1:
+                    viol.append(v("poly-order", f"linked {p}: declared polynomial order {c['order']} but {len(co)} coefficients are sampled"))
                 lines.append(f"polylink {len(co)} " + " ".join(f2h(x) for x in co) + f" {f2h(r['wv_normed'][i])} {'1' if rg else '0'} "
                              f"{f2h(rg[0] if rg else 0.0)} {f2h(rg[1] if rg else 0.0)} {f2h(r['mean'][p])} {f2h(r['scale'][p])}")
             else:
@@ -191,9 +221,12 @@ def judge(ctx, c, r, x64):
         rv = float(sites[f"{p}_{b}"]["value"])
         if not abs(rv - mv) <= tol * max(1.0, abs(mv)):
             diffs.append(f"value of linked {p} in band {b}: real {rv!r} model {mv!r}")
-        # oracle: inside the physical range
-        rg = r["ranges"].get(p)
-        if rg and not (rg[0] - 1e-6 <= rv <= rg[1] + 1e-6):
+        # oracle: inside the range that applies — the user's where one was declared, else the physical one of n / ellip / theta
+        if c["user_range"] and p == c["linked"][0]:
+            rg = [0.7, 3.3]
+        else:
+            rg = {"n": [0.65, 8.0], "ellip": [0.0, 0.9], "theta": [0.0, 2 * np.pi]}.get(p.split("_")[0] if not p.startswith("r_eff") else "r_eff")
+        if rg and not (rg[0] - 1e-6 * max(1, abs(rg[0])) <= rv <= rg[1] + 1e-6 * max(1, abs(rg[1]))):
             viol.append(v("range", f"linked {p} in band {b} = {rv} outside its range {rg}"))
     for p in names_for_range:
         rr = rep[pos]
